@@ -29,8 +29,11 @@
 (* through lookup of the universe terms, the orbit-least form is taken and  *)
 (* the two sets are compared: impl \subseteq spec is C05 (reported matches  *)
 (* are real), spec \subseteq impl is C04 (every represented instance is      *)
-(* found; judged only in states without redundant slots, the property's     *)
-(* scope).                                                                  *)
+(* found).  Both are judged only in states without redundant slots: that is *)
+(* the scope of C04, and only there does the bounded universe spell every   *)
+(* match (a class with a redundant slot has spellings that carry a name it  *)
+(* does not depend on, so a pattern with two binders can run out of pool    *)
+(* names in the specification although the real match needs fewer).         *)
 (***************************************************************************)
 EXTENDS SlottedCC
 
@@ -101,8 +104,9 @@ Canonical(lab, p, t) ==
 MatchSet(lab, E, p) == {t \in {Tup(s) : s \in AllMatches(lab, E, p)} : Canonical(lab, p, t)}
 
 (* the scope of C04: no represented class has a redundant parameter             *)
+(* (a term that uses all N names gets no redundancy verdict - no spare name -, so such states are out as well)     *)
 NoRedundancy(lab, E) ==
-  \A i \in U : Represented(lab, E, i) => NonRed(lab, us[i]) = FV(us[i])
+  \A i \in U : Represented(lab, E, i) => FV(us[i]) # Pool /\ NonRed(lab, us[i]) = FV(us[i])
 
 MatchObs(lab, E) == [q \in DOMAIN Patterns |-> SetToSeq(MatchSet(lab, E, Patterns[q]))]
 
